@@ -80,6 +80,8 @@ def evaluate(spec):
               "topology:" + spec.get("topology", "?")]
     if sum(1 for c in spec["conns"] if c.get("share_cids")) >= 2:
         labels.append("quic-connections-with-equal-cids")
+    if sum(1 for c in spec["conns"] if c.get("share_master")) >= 2:
+        labels.append("tls-connections-with-equal-master-secret")
     return {"sig": sig, "detail": detail, "nontrivial": exporting >= 2 and alt >= 3, "labels": labels, "evals": evals}
 
 
@@ -125,6 +127,8 @@ def spec_strategy(draw, tier):
         if k == "tls":
             c = draw(strategies.tls_conn(max_records=6, max_len=400, ep=st.just(ep), bytes_mode_limit=0,
                                          delivery=strategies.tcp_delivery(modes=("rec", "cuts", "flight"), wrap=True, dups=True)))
+            if share and c["version"] != 0x0304:
+                c["share_master"] = 2000 + share        # parallel resumption of one session: same master secret, own randoms
         elif k == "quic":
             c = draw(strategies.quic_conn(max_steps=6, ep=st.just(ep)))
             if share:
